@@ -3,6 +3,7 @@ import RgVerif.Lemmas.WalkWitness
 import RgVerif.Lemmas.WalkBridge
 import RgVerif.Lemmas.WalkPathSpec
 import RgVerif.Lemmas.WalkSim
+import RgVerif.Lemmas.WalkDenied
 import RgVerif.Props.C07
 /-
 C06 — the single-threaded and the parallel walker report the same entries, once each, and that set
@@ -141,6 +142,18 @@ theorem serial_events_eq (cfg : Cfg) (forest : List Node) (roots : List Node) :
   intro hz
   rw [← serial_eq cfg forest _ roots hz]
   exact h
+
+/-- Outside the property (error visits are not entries), for completeness: the rule for the EACCES
+visits of directories that cannot be listed (`Spec/ReachDenied.lean`, compared with both real walkers on
+every generated tree with unreadable directories).  The parallel walker calls `read_dir` before it
+looks at `max_depth`, the serial one only delivers the error when the pushed listing is read; so the
+serial walker's error visits are a sub-sequence of the parallel walker's (they differ exactly for
+unreadable directories at the depth limit). -/
+theorem denied_visits_serial_sub_parallel (cfg : Cfg) (forest : List Node) (denied : Nat → Bool)
+    (fuel : Nat) (roots : List Node) :
+    (deniedVisits cfg forest denied false fuel roots).Sublist
+      (deniedVisits cfg forest denied true fuel roots) :=
+  deniedVisits_sub cfg forest denied fuel roots
 
 /-- The specification read path by path (`Spec/ReachPath.lean`: an item is reported iff it is a root,
 or what `entryOut` says about a child of a *listed* directory; a directory is listed iff it is a root
